@@ -58,7 +58,9 @@ def term_of(x):
 
 
 EVENTS = ["weak_other_global", "weak_other_P2", "strong_other", "set_globals", "clear_fmm_cache", "new_space", "mass_matrix"]
-KINDS = ["dense_sl", "dense_hyp", "sparse_identity", "potential_sl", "gridfun", "fmm_sl", "fmm_potential"]
+# helm_imag_*: Helmholtz constructors with a purely imaginary wavenumber forward to the modified Helmholtz constructors - the
+# explicit parameter object has to survive that hop
+KINDS = ["dense_sl", "dense_hyp", "sparse_identity", "potential_sl", "gridfun", "fmm_sl", "fmm_potential", "helm_imag_hyp", "helm_imag_dl", "helm_imag_pot"]
 
 
 def fake_exafmm():
@@ -125,6 +127,14 @@ def make_observed(w, kind, P):
         return (lambda: L.single_layer(w.p1, w.p1, w.p1, parameters=P)), (lambda op: op.weak_form())
     if kind == "dense_hyp":
         return (lambda: L.hypersingular(w.p1, w.p1, w.p1, parameters=P)), (lambda op: op.weak_form())
+    if kind == "helm_imag_hyp":
+        return (lambda: b.operators.boundary.helmholtz.hypersingular(w.p1, w.p1, w.p1, 0.75j, parameters=P)), (lambda op: op.weak_form())
+    if kind == "helm_imag_dl":
+        H = b.operators.boundary.helmholtz
+        return (lambda: (H.double_layer(w.p1, w.p1, w.dp0, 0.75j, parameters=P), H.adjoint_double_layer(w.dp0, w.p1, w.p1, 0.75j, parameters=P), H.single_layer(w.dp0, w.p1, w.dp0, 0.75j, parameters=P))), (lambda ops: [op.weak_form() for op in ops])
+    if kind == "helm_imag_pot":
+        HP = b.operators.potential.helmholtz
+        return (lambda: (HP.single_layer(w.dp0, pts, 0.75j, parameters=P), HP.double_layer(w.dp0, pts, 0.75j, parameters=P))), (lambda ops: [op.evaluate(b.GridFunction(w.dp0, coefficients=ones(w.dp0))) for op in ops])
     if kind == "sparse_identity":
         return (lambda: b.operators.boundary.sparse.identity(w.p1, w.p1, w.dp0, parameters=P)), (lambda op: op.weak_form())
     if kind == "potential_sl":
@@ -270,8 +280,10 @@ def run(ctx):
                             if tag is not None:
                                 claims += [term_of(tag[0]) == term_of(P.quadrature.regular), term_of(tag[1]) == term_of(P.fmm.expansion_order), term_of(tag[2]) == term_of(P.fmm.ncrit)]
                         same = True
-                        if kind in ("dense_sl", "dense_hyp", "sparse_identity"):
+                        if kind in ("dense_sl", "dense_hyp", "sparse_identity", "helm_imag_hyp"):
                             same = res1 is res2
+                        elif kind == "helm_imag_dl":
+                            same = all(r1 is r2 for r1, r2 in zip(res1, res2))
                         claims.append(z3.BoolVal(bool(same)))
                         claim = z3.And(*claims) if claims else z3.BoolVal(True)
                         key = kind + "|" + str(z3.simplify(claim))
@@ -336,8 +348,8 @@ def concrete(family, params):
             return P
 
     def flat(r):
-        if isinstance(r, tuple):
-            return np.concatenate([np.asarray(x, dtype=complex).ravel() for x in r])
+        if isinstance(r, (tuple, list)):
+            return np.concatenate([flat(x) for x in r])
         if hasattr(r, "to_dense"):
             return np.asarray(r.to_dense(), dtype=complex).ravel()
         return np.asarray(r, dtype=complex).ravel()
